@@ -141,7 +141,7 @@ ADDED = {
     "C09": " Plus an 18000-line image whose index exceeds 5 MiB, cut at every power of two 2^12..2^22 and every MiB multiple in both locations (block-wise copies and reads). Default opens of torn indexes while no file can grow beyond the prefix length (RLIMIT_FSIZE: the volume is still full). With a complete index in the other location the line records must not be re-read. Real crash points: a forked child running create_cache=True is killed by the kernel (RLIMIT_FSIZE + default SIGXFSZ) at byte k of the cache file it writes; the parent opens, repairs and re-opens what was left.",
     "C10": " Products have 22..23-line images with piecewise-constant per-line values.",
     "C11": " Plus pointwise (vectorised) pairs and triples, loads from deep copies / pickle round trips, and images of 2100..5120 lines and 104 MB. Plus an index written by the command line tool elsewhere and deployed next to the image, every selection being the first load of a fresh copy of the lazy object. Narrow column windows of 16- and 40-pixel lines. Two ~290 MB images of 290-300 lines (records near the 999 999-byte limit of the length field) whose line records fit one request of more than 256 MiB.",
-    "C12": " Plus declared-vs-loaded shape/dtype of 9 selections on 8 realistically sized images (up to 104 MB).",
+    "C12": " Plus declared-vs-loaded shape/dtype of 9 selections on 8 realistically sized images (up to 104 MB). Plus 144 two-product sequences in one process (a 1.1 and a 1.5 image of equal record length or equal pixel count, both orders, mcfs and local), 4 selections on each.",
     "C13": " Plus products with index files next to every non-empty subset of their images. Plus products whose images carry per-line values one unit of the last stored digit apart (or equal in pairs). Products whose images have identical file descriptors field by field (as the polarisations of one scene do) with differing per-line values.",
     "C14": " 14 corruption kinds (4 with non-ASCII letters / underscore / quote); typed values incl. leap second, leap day, number spellings and every table code. Scene-id dates with every two-digit year and every day around the turn of seven years. Every order of the 4 / 6 shape lines of 2 / 3 shape indices.",
     "C15": " The near-miss alphabet contains the line feed, non-ASCII digits and letters, lower case and control characters.",
